@@ -57,7 +57,7 @@ def RSubj.observable (r : RSubj) : Obsv := fun s =>
   -- snapshot the history, then subscribe to the live subject, then replay the snapshot
   .cellRead r.items false fun items => .cellRead r.wasError false fun we => .cellRead r.wasCompleted false fun wc =>
   subscribeWith
-    (fun o => r.inner.observable o ;;
+    (fun o => r.inner.observable.sub o ;;
       (forEach items.toList (fun x => .obsNext s x .done) ;;
        (match Data.optDec we with
         | some e => .obsError s e.toInt.toNat .done
